@@ -178,6 +178,7 @@ def aborted_upload(sid, size):
     s.sleep(20)
     s.release("drv.body:u1")
     s.wait(post)
+    s.sleep(100)                # whatever the emulator makes of the fragment, it has made it by now
     s.exit("rt", code=1)
     s.wait(it)
     s.recover({})
